@@ -28,7 +28,7 @@ P_LIFE = BASE.with_(w_ops=dict(update=8, react=3, query=1, change=5, immChange=6
                     w_act=dict(change=6, changeWith=1, cancel=4, succeed=2, fail=1, plan_append=2, plan_clear=1))
 
 def cfgs_requests(tier, rng):
-    out = []
+    out = [cfgmod.make(n=3, head=1, manual=0, limit=3, cap=2, payload=0, plans=0, history=1, log="off", inj_state=1, inj_root=1)]
     for k in range(4 if tier == "quick" else 12):
         out.append(cfgmod.make(n=pick(rng, [2, 3, 4, 5]), head=k % 2, manual=(k // 2) % 2, limit=[1, 2, 4, 3][k % 4], cap=2,
                                payload=pick(rng, [0, 2]), plans=0, serial=0, history=1, log="off"))
@@ -47,7 +47,8 @@ def cfgs_limit(tier, rng):
     return out
 
 def cfgs_cycle(tier, rng):
-    out = []
+    out = [cfgmod.make(n=2, head=1, manual=0, limit=2, cap=2, plans=0, log="off", inj_state=1, inj_root=1, defroot=0x0555, defstate=0x0aaa & ~0x200),   # one injected base, classes define only some callbacks (query/preReact/... inherited)
+           cfgmod.make(n=3, head=1, manual=0, limit=2, cap=2, plans=1, log="off", inj_state=1, defstate=0)]
     for k in range(4 if tier == "quick" else 10):
         out.append(cfgmod.make(n=pick(rng, [1, 2, 3, 5, 9]), head=k % 2, manual=0, limit=2, cap=2, plans=(k // 2) % 2, log="off",
                                defroot=pick(rng, [FULL, FULL, 0x0fff & ~0x8]), defstate=pick(rng, [FULL, FULL, FULL & ~0x10])))
@@ -84,6 +85,7 @@ def cfgs_plans(tier, rng):
     for k in range(5 if tier == "quick" else 14):
         out.append(cfgmod.make(n=pick(rng, [1, 2, 3, 4]), head=1, manual=(k // 2) % 2, limit=pick(rng, [2, 4]), cap=[1, 2, 3, 4][k % 4],
                                payload=pick(rng, [0, 0, 2]), plans=1, serial=k % 2, history=1, log="on"))
+    out.append(cfgmod.make(n=8, head=1, manual=0, limit=2, cap=3, payload=0, plans=1, serial=0, history=1, log="on"))      # per-state bit sets exactly one byte long
     out.append(cfgmod.make(n=3, head=1, manual=0, limit=2, cap=2, payload=2, plans=1, serial=1, history=1, log="off"))     # no logger: origins of plan-issued requests are still visible to guards and history
     return out
 
@@ -112,7 +114,7 @@ P_REPL = P_REQ.with_(w_ops=dict(replayTransition=6, replayEnter=2, exit_enter=3,
 
 def cfgs_serial(tier, rng):
     out = []
-    ns = [1, 2, 3, 4, 5, 7, 8, 9] if tier == "quick" else [1, 2, 3, 4, 5, 7, 8, 9, 15, 16, 17, 31, 32, 33]
+    ns = [1, 2, 3, 4, 5, 7, 8, 9, 128] if tier == "quick" else [1, 2, 3, 4, 5, 7, 8, 9, 15, 16, 17, 31, 32, 33, 63, 64, 65, 127, 128, 129, 255]
     for k, n in enumerate(ns):
         out.append(cfgmod.make(n=n, head=k % 2, manual=(k // 2) % 2 if k % 3 else 1, limit=2, cap=2, plans=k % 2, history=(k // 2) % 2, serial=1, log="off"))
     return out
@@ -126,6 +128,9 @@ def cfgs_inject(tier, rng):
     ks = [(0, 0), (1, 1), (2, 2), (0, 3), (3, 1)] if tier == "quick" else [(0, 0), (1, 1), (2, 2), (0, 3), (3, 1), (4, 4), (1, 0), (2, 1)]
     for k, (ir, is_) in enumerate(ks):
         out.append(cfgmod.make(n=pick(rng, [1, 2, 3]), head=1, manual=k % 2, limit=2, cap=2, inj_root=ir, inj_state=is_, plans=k % 2, log="off"))
+    # exactly one injection and classes that define only some (or none) of the callbacks: the inherited ones must run once, not twice
+    out.append(cfgmod.make(n=2, head=1, manual=0, limit=2, cap=2, inj_root=1, inj_state=1, plans=0, log="off", defroot=0, defstate=0))
+    out.append(cfgmod.make(n=3, head=1, manual=1, limit=2, cap=2, inj_root=1, inj_state=1, plans=0, log="off", defroot=0x0aaa, defstate=0x0555))
     return out
 
 P_INJ = BASE.with_(w_ops=dict(update=8, react=6, query=3, change=5, immChange=8, exit_enter=3), p_same_dest=0.4,
@@ -133,12 +138,15 @@ P_INJ = BASE.with_(w_ops=dict(update=8, react=6, query=3, change=5, immChange=8,
 
 def cfgs_logging(tier, rng):
     out = []
-    masks = [(FULL, FULL), (0, 0), (0x0aaa, 0x0555), (FULL, 0)]
-    for k in range(6 if tier == "quick" else 14):
+    masks = [(FULL, FULL), (0, 0), (0x0aaa, 0x0555), (FULL, 0), (FULL & ~0x2000, FULL), (FULL & ~0x1000, 0x0555)]      # (the last two: a head that defines only one of planSucceeded / planFailed)
+    for k in range(8 if tier == "quick" else 18):
         dr, ds = masks[k % len(masks)]
         out.append(cfgmod.make(n=pick(rng, [1, 2, 3]), head=(k // 2) % 2 if k % 5 else 1, manual=k % 2, limit=2, cap=2, payload=pick(rng, [0, 2]),
                                inj_state=pick(rng, [0, 0, 1]), inj_root=pick(rng, [0, 0, 1]), plans=1 if k % 3 else 0, history=k % 2,
                                log=["on", "verbose"][k % 2], defroot=dr, defstate=ds))
+    # a head that defines only one of the two plan outcome callbacks (non-verbose logging decides per callback whether to record)
+    out.append(cfgmod.make(n=2, head=1, manual=0, limit=2, cap=2, payload=0, plans=1, history=0, log="on", defroot=FULL & ~0x2000, defstate=FULL))
+    out.append(cfgmod.make(n=2, head=1, manual=1, limit=2, cap=2, payload=0, plans=1, history=0, log="on", defroot=FULL & ~0x1000, defstate=FULL))
     # logging compiled out: the same scripts must give the same callbacks and states (compared with the model under log=off)
     out.append(cfgmod.make(n=3, head=1, manual=0, limit=2, cap=3, payload=0, plans=1, history=1, log="off"))
     out.append(cfgmod.make(n=2, head=1, manual=1, limit=2, cap=2, payload=2, plans=1, history=1, log="off"))
@@ -199,7 +207,7 @@ SPECS = {
 }
 
 # C10 at the machine level: the plan seen through plan()/control.plan()
-SPEC_C10_MACHINE = MachineSpec("C10", T.p_C10, P_PLANS.with_(w_ops=dict(plan_append=14, plan_removeAt=6, plan_clear=2, exit_enter=3, succeed=6),
+SPEC_C10_MACHINE = MachineSpec("C10", T.p_C10, P_PLANS.with_(w_ops=dict(plan_append=14, plan_appendWith=5, plan_removeAt=6, plan_clear=2, exit_enter=3, succeed=6, loadfrom=3, second_instance=2),
                                                                w_act=dict(plan_append=8, plan_removeAt=3, plan_clear=2, succeed=6)),
                                cfgs_plans, lambda t: 60 if t == "quick" else 300,
                                lambda ls, c: has(ls, lambda l: (l.kind == "did" and l.act[0] == "plan.append" and l.res == "full") or (l.kind == "api" and l.op == "plan.removeAt")))
@@ -326,7 +334,7 @@ def cfgs_copies(tier, rng):
     out = []
     for k in range(6 if tier == "quick" else 16):
         out.append(cfgmod.make(n=pick(rng, [1, 2, 3, 4]), head=k % 2, manual=(k // 2) % 2, limit=pick(rng, [2, 4]), cap=pick(rng, [1, 2, 3]), payload=pick(rng, [0, 2, 5]),
-                               plans=1 if k % 3 else 0, serial=1, history=1, log="on" if k % 2 else "off"))
+                               plans=1 if k % 3 else 0, serial=1, history=1, log="on" if k % 2 else "off", sdata=1 if k % 2 == 0 else 0))
     return out
 
 P_COPIES = P_LIFE.with_(n_ops=(10, 34), w_ops=dict(copy=7, second_instance=3, destroy_construct=2, succeed=3, fail=1, plan_append=5, plan_appendWith=2, changeWith=3, immChangeWith=3, loadfrom=2),
@@ -397,9 +405,12 @@ def cfgs_san(tier, rng):
            cfgmod.make(n=3, head=1, manual=0, limit=4, cap=3, payload=3, plans=1, serial=1, history=1, log="off"),         # double payload
            cfgmod.make(n=4, head=0, manual=1, limit=2, cap=2, payload=4, plans=1, serial=1, history=1, log="verbose"),     # 3-byte payload
            cfgmod.make(n=2, head=1, manual=0, limit=3, cap=4, payload=2, plans=1, serial=0, history=0, log="off"),
-           cfgmod.make(n=5, head=0, manual=0, limit=2, cap=1, payload=0, plans=1, serial=1, history=1, log="on", inj_state=1)]
+           cfgmod.make(n=5, head=0, manual=0, limit=2, cap=1, payload=0, plans=1, serial=1, history=1, log="on", inj_state=1),
+           cfgmod.make(n=8, head=1, manual=0, limit=2, cap=2, payload=0, plans=1, serial=1, history=1, log="off"),          # bit sets of exactly one byte
+           cfgmod.make(n=16, head=0, manual=1, limit=2, cap=3, payload=2, plans=1, serial=1, history=0, log="off")]
     if tier != "quick":
-        out += [cfgmod.make(n=9, head=1, manual=1, limit=4, cap=8, payload=5, plans=1, serial=1, history=1, log="on"),
+        out += [cfgmod.make(n=128, head=1, manual=1, limit=2, cap=2, payload=0, plans=1, serial=1, history=1, log="off"),     # the first state count whose serial form needs a second byte
+                cfgmod.make(n=9, head=1, manual=1, limit=4, cap=8, payload=5, plans=1, serial=1, history=1, log="on"),
                 cfgmod.make(n=3, head=1, manual=0, limit=8, cap=3, payload=1, plans=1, serial=1, history=1, log="off", inj_root=2, inj_state=2),
                 cfgmod.make(n=64, head=1, manual=1, limit=2, cap=2, payload=3, plans=1, serial=1, history=1, log="off"),
                 cfgmod.make(n=255, head=0, manual=1, limit=2, cap=255, payload=0, plans=1, serial=1, history=1, log="off")]
